@@ -257,6 +257,15 @@ Section Local.
      cannot change while they keep their ID (nodes of the record itself) - DESIGN section 6 F6 *)
   Variable content_stable_per_id : schema -> Prop.
 
+  (* Integration note (C02 builder, /work/c02 commit 102d232, Proofs/EvalCache.v): the evaluator
+     there is  eval root query ... K K_eqb nid disable false d p m  with node IDs a FUNCTION
+     nid : path -> K.  Conversion: world -> (root tree = T DocumentNode [] FNone (w_ctx ++ [w_rec]),
+     cursor p = the last child, nid = preorder lookup in w_ids).  Then
+       eval_cache_transparent = caches_invisible_eval at m = [] (disable false vs true),
+       eval_id_renaming       = C02's eval_id_renaming at nid' := f o nid  (w_rename f only
+                                post-composes nid; NoDup (w_ids w) gives injectivity on V),
+       eval_hash_renaming     = immediate: both sides equal eval_nocache, which never reads hashes
+                                (C02 models a hash as its equivalence class). *)
   Hypothesis CInv_mono : forall used used' c,
     (forall x, In x used -> In x used') -> CInv used c -> CInv used' c.
   (* C02: the per-record memo only saves work *)
